@@ -5,6 +5,8 @@ import (
 	"math/rand"
 
 	gots "github.com/Comcast/gots/v2"
+	"github.com/Comcast/gots/v2/packet"
+	"github.com/Comcast/gots/v2/packet/adaptationfield"
 	"github.com/Comcast/gots/v2/pes"
 )
 
@@ -67,6 +69,50 @@ func (c04) Gen(tier string, seed int64, emit func([]Ev)) {
 		pr := c04Priors(r, 7)
 		emit([]Ev{{"op": "inspts", "v": W64(v), "prior": B(pr[i%3])}})
 	}
+	// end to end: the same values set on an adaptation field (PCR, OPCR, both) and carried in a PES header (the
+	// library's own WithPES option; a PES header with PTS and DTS read by the header decoder with DTS asked first
+	// or PTS asked first)
+	e2e := 60
+	if tier == "thorough" {
+		e2e = 4000
+	}
+	edgeP := []uint64{0, 1, 1<<33 - 1, 1<<33 - 2, 1 << 32, 1<<32 - 1, 1 << 15, 1<<15 - 1, 1 << 30, 1<<30 - 1}
+	edgeC := []uint64{0, 1, 299, 300, pcrLimit - 1, pcrLimit - 300, pcrLimit - 301, (1<<32)*300 + 299, (1<<32 - 1) * 300}
+	for i := 0; i < e2e+len(edgeP)*3; i++ {
+		v, w := uint64(r.Int63n(1<<33)), uint64(r.Int63n(1<<33))
+		if i < len(edgeP)*3 {
+			v, w = edgeP[i%len(edgeP)], edgeP[(i/len(edgeP)+i)%len(edgeP)]
+		} else if i%4 == 0 {
+			v = uint64(1)<<uint(1+r.Intn(33)) - 1
+		}
+		emit([]Ev{{"op": "e2e_withpes", "v": W64(v), "pid": r.Intn(8192)}})
+		sid := []int{0xe0, 0xc0, 0xbd}[r.Intn(3)]
+		if i%3 == 0 { // any stream_id that carries the optional header
+			for sid = r.Intn(256); c11NoOpt[sid]; sid = r.Intn(256) {
+			}
+		}
+		emit([]Ev{{"op": "e2e_pes", "v": W64(v), "w": W64(w), "dtsfirst": i%2 == 0, "sid": sid}})
+	}
+	for sid := 0; sid < 256; sid++ { // every stream_id that carries the optional header
+		if !c11NoOpt[sid] {
+			emit([]Ev{{"op": "e2e_pes", "v": W64(uint64(r.Int63n(1 << 33))), "w": W64(uint64(r.Int63n(1 << 33))), "dtsfirst": sid%2 == 0, "sid": sid}})
+		}
+	}
+	for i := 0; i < e2e+len(edgeC)*3; i++ {
+		v, w := uint64(r.Int63n(int64(pcrLimit))), uint64(r.Int63n(int64(pcrLimit)))
+		if i < len(edgeC)*3 {
+			v, w = edgeC[i%len(edgeC)], edgeC[(i/len(edgeC)+i)%len(edgeC)]
+		}
+		extra := []string{"", "", "splice-on", "splice-off", "tpd-on"}[r.Intn(5)]
+		aflen := []int{183, 20, 13, 100}[r.Intn(4)]
+		if extra != "" && aflen == 13 {
+			aflen = 40
+		}
+		// what the slot holds before the value is set: filler, random bytes, or another encoding of the same value
+		// (reserved bits cleared) as a re-stamped packet may carry
+		emit([]Ev{{"op": "e2e_pcr", "v": W64(v), "w": W64(w), "which": []string{"pcr", "opcr", "both", "both-opcr-first"}[i%4], "aflen": aflen,
+			"extra": extra, "prior": []string{"ff", "random", "alias"}[r.Intn(3)], "fill": B(rndBytes(r, 12))}})
+	}
 	// decoding arbitrary bytes, and the same bytes with one reserved / marker / prefix bit flipped
 	for i := 0; i < nrand/2+40; i++ {
 		b := make([]byte, 6)
@@ -93,6 +139,14 @@ func (c04) Gen(tier string, seed int64, emit func([]Ev)) {
 	}
 }
 
+// gotsInsertPCR: harness-side PCR writer (inputs only).
+func gotsInsertPCR(b []byte, v uint64) {
+	base, ext := v/300, v%300
+	b[0], b[1], b[2], b[3] = byte(base>>25), byte(base>>17), byte(base>>9), byte(base>>1)
+	b[4] = byte(base&1)<<7 | 0x7e | byte(ext>>8)
+	b[5] = byte(ext)
+}
+
 func (c04) Exec(h []Ev) []Ev {
 	for _, e := range h {
 		e["panic"] = guard(func() {
@@ -108,6 +162,118 @@ func (c04) Exec(h []Ev) []Ev {
 				e["after"] = B(buf)
 				e["back_gots"] = W64(gots.ExtractTime(buf[:5]))
 				e["back_pes"] = W64(pes.ExtractTime(buf[:5]))
+			case "e2e_withpes":
+				v := UW64(e["v"])
+				p := packet.Create(GI(e["pid"]), packet.WithPUSI, func(q *packet.Packet) { packet.WithPES(q, v) })
+				e["pkt"] = B(p[:])
+				e["haspts"], e["back"], e["back_gots"], e["back_pes"] = false, W64(0), W64(0), W64(0)
+				if hb, err := packet.PESHeader(p); err == nil && len(hb) >= 14 {
+					e["back_gots"], e["back_pes"] = W64(gots.ExtractTime(hb[9:14])), W64(pes.ExtractTime(hb[9:14]))
+					if hd, herr := pes.NewPESHeader(hb); herr == nil {
+						e["haspts"], e["back"] = hd.HasPTS(), W64(hd.PTS())
+					}
+				}
+			case "e2e_pes":
+				v, w := UW64(e["v"]), UW64(e["w"])
+				b := []byte{0, 0, 1, byte(GI(e["sid"])), 0, 0, 0x80, 0xc0, 10, 0, 0, 0, 0, 0, 0, 0, 0, 0, 0, 0xaa, 0xbb}
+				gots.InsertPTS(b[9:14], v)
+				gots.InsertPTS(b[14:19], w)
+				e["bytes"] = B(b)
+				e["haspts"], e["hasdts"], e["pts"], e["dts"] = false, false, W64(0), W64(0)
+				if hd, err := pes.NewPESHeader(b); err == nil {
+					if GBool(e["dtsfirst"]) {
+						e["dts"], e["hasdts"] = W64(hd.DTS()), hd.HasDTS()
+						e["pts"], e["haspts"] = W64(hd.PTS()), hd.HasPTS()
+					} else {
+						e["pts"], e["haspts"] = W64(hd.PTS()), hd.HasPTS()
+						e["dts"], e["hasdts"] = W64(hd.DTS()), hd.HasDTS()
+					}
+				}
+			case "e2e_pcr":
+				v, w := UW64(e["v"]), UW64(e["w"])
+				var p packet.Packet
+				for i := range p {
+					p[i] = 0xff
+				}
+				p[0], p[1], p[2], p[3], p[4], p[5] = 0x47, 0x01, 0x00, 0x30, byte(GI(e["aflen"])), 0
+				if GI(e["aflen"]) == 183 {
+					p[3] = 0x20
+				}
+				af, err := p.AdaptationField()
+				if err != nil {
+					panic("harness: no adaptation field")
+				}
+				which := GS(e["which"])
+				step := func(err error) {
+					if err != nil {
+						panic("setter failed: " + err.Error())
+					}
+				}
+				fill := GB(e["fill"])
+				// prior: what the six bytes of the slot hold when the value is set
+				prior := func(off int, val uint64, k int) {
+					switch GS(e["prior"]) {
+					case "random":
+						copy(p[off:off+6], fill[k:k+6])
+					case "alias":
+						gotsInsertPCR(p[off:off+6], val)
+						p[off+4] &^= 0x7e
+					}
+				}
+				pcrOff, opcrOff := 6, 6
+				if which != "opcr" {
+					opcrOff = 12
+				}
+				if GS(e["extra"]) == "splice-off" {
+					step(af.SetHasSplicingPoint(true))
+				}
+				switch which {
+				case "pcr":
+					step(af.SetHasPCR(true))
+					prior(pcrOff, v, 0)
+					step(af.SetPCR(v))
+				case "opcr":
+					step(af.SetHasOPCR(true))
+					prior(opcrOff, w, 6)
+					step(af.SetOPCR(w))
+				case "both":
+					step(af.SetHasPCR(true))
+					prior(pcrOff, v, 0)
+					step(af.SetPCR(v))
+					step(af.SetHasOPCR(true))
+					prior(opcrOff, w, 6)
+					step(af.SetOPCR(w))
+				default:
+					step(af.SetHasOPCR(true))
+					prior(6, w, 6)
+					step(af.SetOPCR(w))
+					step(af.SetHasPCR(true))
+					prior(pcrOff, v, 0)
+					step(af.SetPCR(v))
+				}
+				// other optional fields switched on or off afterwards: the values stay where they are
+				switch GS(e["extra"]) {
+				case "splice-on":
+					step(af.SetHasSplicingPoint(true))
+					step(af.SetSpliceCountdown(5))
+				case "splice-off":
+					step(af.SetHasSplicingPoint(false))
+				case "tpd-on":
+					step(af.SetHasTransportPrivateData(true))
+				}
+				e["pkt"] = B(p[:])
+				bp, e1 := af.PCR()
+				bo, e2 := af.OPCR()
+				e["pcr"], e["pcr_err"], e["opcr"], e["opcr_err"] = W64(bp), e1 != nil, W64(bo), e2 != nil
+				fp, e3 := adaptationfield.PCR(&p)
+				fo, e4 := adaptationfield.OPCR(&p)
+				e["f_pcr"], e["f_opcr"] = W64(0), W64(0)
+				if e3 == nil {
+					e["f_pcr"] = W64(gots.ExtractPCR(fp))
+				}
+				if e4 == nil {
+					e["f_opcr"] = W64(gots.ExtractPCR(fo))
+				}
 			case "extpcr":
 				e["v"] = W64(gots.ExtractPCR(GB(e["bytes"])))
 			case "exttime":
@@ -134,6 +300,12 @@ func (c04) Class(e Ev) string {
 		}
 		prior := GB(e["prior"])
 		return fmt.Sprintf("%s/topbit%d/prior%02x", op, top, prior[0])[:len(op)+12]
+	}
+	if op == "e2e_pcr" {
+		return op + "/" + GS(e["which"])
+	}
+	if op == "e2e_pes" {
+		return fmt.Sprintf("%s/dtsfirst-%v", op, GBool(e["dtsfirst"]))
 	}
 	return op
 }
